@@ -36,6 +36,8 @@ import (
 	"github.com/HobbyOSs/gosk/internal/gen"
 	"github.com/HobbyOSs/gosk/internal/pass1"
 	"github.com/HobbyOSs/gosk/pkg/asmdb"
+	"github.com/HobbyOSs/gosk/pkg/cpu"
+	"github.com/HobbyOSs/gosk/pkg/ng_operand"
 	"github.com/HobbyOSs/gosk/pkg/ocode"
 	"github.com/comail/colog"
 )
@@ -421,6 +423,119 @@ func runDump(out string) {
 	os.WriteFile(out, b, 0666)
 }
 
+// runRows tabulates asmdb.FindEncoding over the finite skeleton of operand classes.  The result of
+// FindEncoding depends only on (mnemonic, resolved operand types, "an operand is spelled AL/AX/EAX",
+// indirect memory, immediate fits in int8, matchAnyImm); two probes with the same key and different
+// rows abort the translation (fail closed).
+func runRows(out string) {
+	regs := []string{"AL", "CL", "AX", "CX", "EAX", "ECX", "DS", "CR0", "DX"}
+	imms := []string{"5", "-5", "200", "-200", "1000", "-1000", "40000", "-40000", "100000", "-100000", "1", "3000000000", "-3000000000"}
+	mems := []string{}
+	for _, dt := range []string{"", "BYTE ", "WORD ", "DWORD "} {
+		for _, b := range []string{"[ 4660 ]", "[ BX ]", "[ EBX ]", "[ BX + 4 ]", "[ EBX + ECX * 2 + 400 ]"} {
+			mems = append(mems, dt+b)
+		}
+	}
+	ops := append(append(append([]string{}, regs...), imms...), mems...)
+	ops = append(ops, "lbl")
+	mns := []string{"MOV", "ADD", "OR", "ADC", "SBB", "AND", "SUB", "XOR", "CMP", "NOT", "SHL", "SHR", "SAR", "IMUL", "PUSH", "POP", "IN", "OUT", "INC", "DEC", "NEG", "MUL", "DIV", "IDIV"}
+	type Row struct {
+		Key  string `json:"key"`
+		Mn   string `json:"mn"`
+		Types []string `json:"types"`
+		Acc, Fits8, Ind, AnyImm bool
+		Found bool `json:"found"`
+		Opcode string `json:"opcode"`
+		Addend string `json:"addend"`
+		HasModRM bool `json:"has_modrm"`
+		Mode, Rm, Reg string
+		ImmSize int `json:"imm_size"`
+		ImmVal string `json:"imm_val"`
+		BaseSize int `json:"base_size"`
+		Probe string `json:"probe"`
+	}
+	seen := map[string]Row{}
+	probes := map[string]int{}
+	var rows []Row
+	db := asmdb.NewInstructionDB()
+	var logBuf bytes.Buffer
+	setUpColog(&logBuf)
+	probe := func(mn string, list []string, mode cpu.BitMode, force bool) {
+		text := strings.Join(list, ",")
+		o, err := ng_operand.FromString(text)
+		if err != nil {
+			return
+		}
+		o = o.WithBitMode(mode).WithForceRelAsImm(force)
+		types := []string{}
+		for _, t := range o.OperandTypes() {
+			types = append(types, string(t))
+		}
+		acc := false
+		for _, sx := range o.InternalStrings() {
+			u := strings.ToUpper(sx)
+			if u == "AL" || u == "AX" || u == "EAX" || u == "RAX" {
+				acc = true
+			}
+		}
+		for _, any := range []bool{true, false} {
+			r := Row{Mn: mn, Types: types, Acc: acc, Fits8: o.ImmediateValueFitsInSigned8Bits(), Ind: o.IsIndirectMemory(), AnyImm: any, Probe: text}
+			r.Key = fmt.Sprintf("%s|%s|%v|%v|%v|%v", mn, strings.Join(types, ","), r.Acc, r.Fits8, r.Ind, any)
+			if probes[r.Key] >= 2 { // two independent probes per key are enough to exercise the fail-closed rule
+				continue
+			}
+			probes[r.Key]++
+			e, err := db.FindEncoding(mn, o, any)
+			logBuf.Reset()
+			if err == nil && e != nil {
+				r.Found = true
+				r.Opcode = e.Opcode.Byte
+				if e.Opcode.Addend != nil {
+					r.Addend = *e.Opcode.Addend
+				}
+				if e.ModRM != nil {
+					r.HasModRM = true
+					r.Mode, r.Rm, r.Reg = e.ModRM.Mode, e.ModRM.Rm, e.ModRM.Reg
+				}
+				if e.Immediate != nil {
+					r.ImmSize, r.ImmVal = e.Immediate.Size, e.Immediate.Value
+				}
+				r.BaseSize = e.GetOutputSize(nil)
+				logBuf.Reset()
+			}
+			if old, ok := seen[r.Key]; ok {
+				a, b := old, r
+				a.Probe, b.Probe = "", ""
+				if fmt.Sprintf("%v", a) != fmt.Sprintf("%v", b) {
+					fmt.Fprintf(os.Stderr, "translator cannot read FindEncoding: key %s gives different rows for probes %q and %q\n", r.Key, old.Probe, r.Probe)
+					os.Exit(3)
+				}
+				continue
+			}
+			seen[r.Key] = r
+			rows = append(rows, r)
+		}
+	}
+	for _, mn := range mns {
+		for _, mode := range []cpu.BitMode{cpu.MODE_16BIT, cpu.MODE_32BIT} {
+			force := mn == "MOV"
+			for _, a := range ops {
+				probe(mn, []string{a}, mode, force)
+				for _, b := range ops {
+					probe(mn, []string{a, b}, mode, force)
+					if mn == "IMUL" && !strings.ContainsAny(a[:1], "0123456789-l") && !strings.ContainsAny(b[:1], "0123456789-l") {
+						for _, c := range []string{"5", "-5", "1000", "100000"} {
+							probe(mn, []string{a, b, c}, mode, force)
+						}
+					}
+				}
+			}
+		}
+	}
+	b, _ := json.Marshal(rows)
+	os.WriteFile(out, b, 0666)
+}
+
 func main() {
 	in := flag.String("in", "", "input jsonl")
 	out := flag.String("out", "", "output")
@@ -438,6 +553,8 @@ func main() {
 		runAst(*in, *out)
 	case "dump":
 		runDump(*out)
+	case "rows":
+		runRows(*out)
 	default:
 		os.Exit(2)
 	}
